@@ -537,13 +537,10 @@ func imageClass(op content.Operator) string {
 	if len(data) > 4094 {
 		return "outside"
 	}
-	for _, v := range d {
-		if hasEmptyArray(v) {
-			return "inline-image-dict-empty-array"
-		}
-	}
-	if imgFilterASCII(d) && (len(data) == 0 || class[data[0]] == 1 || data[0] == '%') {
-		return "inline-image-ascii-filter-leading-space"
+	// ISO 32000 8.9.7: for the ASCII filters white space after ID is not image data; data
+	// that itself starts with white space is read back without it (outside the domain)
+	if imgFilterASCII(d) && len(data) > 0 && class[data[0]] == 1 {
+		return "outside"
 	}
 	if (!hasL || l <= 0) && eolEI(data) {
 		return "inline-image-no-length-data-contains-eol-EI"
@@ -1184,7 +1181,7 @@ func (h *harness) builderCase() {
 	n := 1 + r.IntN(14)
 	var calls []string
 	for i := 0; i < n; i++ {
-		k := r.IntN(34)
+		k := r.IntN(35)
 		if r.IntN(8) > 0 {
 			// mostly calls the current state accepts
 			hasQ, hasM := false, false
@@ -1195,7 +1192,7 @@ func (h *harness) builderCase() {
 			var opts []int
 			switch b.State.CurrentObject {
 			case content.ObjPage:
-				opts = []int{0, 1, 4, 6, 8, 10, 16, 18, 20, 21, 22, 23, 24, 25, 30, 31}
+				opts = []int{0, 1, 4, 6, 8, 10, 16, 18, 20, 21, 22, 23, 24, 25, 30, 31, 34, 34}
 				if hasQ {
 					opts = append(opts, 2, 3)
 				}
@@ -1294,6 +1291,12 @@ func (h *harness) builderCase() {
 				b.FillAndStrokeEvenOdd()
 			case 33:
 				b.TextSecondLine(float64(r.IntN(20)), -14.4)
+			case 34:
+				data := []byte(imgData[r.IntN(len(imgData))])
+				if r.IntN(2) == 0 {
+					data = h.rbytes(20)
+				}
+				b.DrawInlineImageRaw(pdf.Dict{"W": pdf.Integer(1 + r.IntN(4)), "H": pdf.Integer(2), "BPC": pdf.Integer(8)}, data)
 			}
 		}()
 	}
@@ -1303,6 +1306,22 @@ func (h *harness) builderCase() {
 		return
 	}
 	ops := append([]content.Operator(nil), b.Stream...)
+	// for PDF 2.0 the Builder makes every inline image readable (it adds /L)
+	if v >= pdf.V2_0 {
+		for _, op := range ops {
+			if op.Name != content.OpInlineImage || imageClass(op) == "outside" {
+				continue
+			}
+			one := []content.Operator{op}
+			if got, want := realScan(realFormat(one)), opsCanon(one); got != want {
+				h.nsig["builder-inline-image"]++
+				if h.nsig["builder-inline-image"] <= 5 {
+					h.e.Fail("builder-inline-image", fmt.Sprintf("an inline image drawn by the Builder for PDF 2.0 is not read back: %q scans to %s, want %s", realFormat(one), got, want),
+						map[string]any{"calls": calls, "ops": opsRaw(one)})
+				}
+			}
+		}
+	}
 	// the stream re-reads as the operators written
 	h.operators(ops, "builder-output")
 	// it is a valid sequence for a fresh State ...
